@@ -1400,6 +1400,53 @@ func cvNoPanicGo(c *Ctx, g any) {
 	}
 }
 
+// cvErrorOracle: an error value that is not a nil pointer crosses the boundary as an error object
+// carrying its message and itself as the cause - also inside containers - never as undefined.
+func cvErrorOracle(c *Ctx) {
+	for _, f := range cvFns {
+		for _, e := range cvErrs {
+			for _, wrap := range []string{"", "slice", "map"} {
+				var in any = e
+				switch wrap {
+				case "slice":
+					in = []any{e}
+				case "map":
+					in = map[string]any{"k": e}
+				}
+				var o ugo.Object
+				var err error
+				func() {
+					defer func() {
+						if r := recover(); r != nil {
+							err = fmt.Errorf("panic: %v", r)
+						}
+					}()
+					o, err = f.fn(in)
+				}()
+				c.dist["oracle:error-crossing"]++
+				if err != nil {
+					continue // reported by the panic / unsupported oracles
+				}
+				elem := o
+				switch x := o.(type) {
+				case ugo.Array:
+					if len(x) == 1 {
+						elem = x[0]
+					}
+				case ugo.Map:
+					elem = x["k"]
+				}
+				eo, ok := elem.(*ugo.Error)
+				if !ok || eo.Message != e.Error() {
+					c.Violation(PropViolation{"C20", fmt.Sprintf("%s of the non-nil error %T (%q)%s gives %s, want an error object with that message",
+						f.name, e, e.Error(), map[string]string{"": "", "slice": " inside []any", "map": " inside map[string]any"}[wrap], cvObjStr(o)),
+						cvGoStr(in), "C20:error-lost:" + f.name + ":" + fmt.Sprintf("%T", e)})
+				}
+			}
+		}
+	}
+}
+
 func cvNoPanicObj(c *Ctx, o ugo.Object) {
 	if res := cvToIface(o); strings.HasPrefix(res, "panic") {
 		c.Violation(PropViolation{"C20", "ToInterface panics: " + res, cvObjStr(o), "C20:panic:ToInterface:" + fmt.Sprintf("%T", o)})
@@ -1512,6 +1559,7 @@ func init() {
 				}
 			}
 			cvRegistryRoundTrip(c)
+			cvErrorOracle(c)
 			m := 300 * c.Scale
 			for i := 0; i < m; i++ {
 				o := cvRandPlain(c.R, 4, false, plainAll)
